@@ -509,3 +509,51 @@ def features(m: Model) -> list:
     if m.header["time_units"] != "generations":
         f.append("non_generation_units")
     return f
+
+
+def overlap_variant(m: Model, rng: random.Random):
+    """A copy of the model with a SECOND migration for an ordered pair that already has one,
+    placed (inside the pair's coexistence interval, so that nothing else is wrong) so that it
+    overlaps / abuts / contains / is contained in the first, with zero and positive rates in both
+    list orders.  Returns (model, overlapping: bool) or None.  `expected()` is meaningless for an
+    overlapping variant (the document must be rejected)."""
+    cands = [mg for mg in m.migrations if "source" in mg]
+    if not cands:
+        return None
+    m2 = copy.deepcopy(m)
+    cands = [mg for mg in m2.migrations if "source" in mg]
+    mg = rng.choice(cands)
+    a, b = m2.deme(mg["source"]), m2.deme(mg["dest"])
+    lo, hi = max(a["end_time"], b["end_time"]), min(a["start_time"], b["start_time"])
+    ts = sorted({t for t in m2.grid if lo <= t <= hi} | {lo} | ({hi} if hi != INF else set()))
+    if hi == INF:
+        ts.append(INF)
+    if len(ts) < 2:
+        return None
+
+    def window():
+        i = rng.randrange(len(ts) - 1)
+        j = rng.randrange(i + 1, len(ts))
+        return ts[j], ts[i]
+
+    s1, e1 = window()
+    s2, e2 = window()
+    mg["start_time"], mg["end_time"] = s1, e1
+    mg["rate"] = rng.choice([0, 0, mg["rate"]])
+    mg["_eff"] = [(mg["source"], mg["dest"], s1, e1)]
+    new = dict(source=mg["source"], dest=mg["dest"], start_time=s2, end_time=e2, rate=rng.choice([0, Fraction(1, 64), Fraction(1, 64)]),
+               _eff=[(mg["source"], mg["dest"], s2, e2)])
+    idx = m2.migrations.index(mg)
+    if rng.random() < 0.5:
+        m2.migrations.insert(idx + 1, new)
+    else:
+        m2.migrations.insert(idx, new)
+    overlapping = s1 > e2 and s2 > e1
+    # other migrations of the same pair may overlap too
+    for other in m2.migrations:
+        if other is mg or other is new:
+            continue
+        for (src, dst, s, e) in other["_eff"]:
+            if src == mg["source"] and dst == mg["dest"] and ((s > e2 and s2 > e) or (s > e1 and s1 > e)):
+                overlapping = True
+    return m2, overlapping
